@@ -580,6 +580,9 @@ def c11_backends(n, seed, procs):
         if pep2.wrapper_name != "mosek":
             return dict(evaluations=0, distinct=0, failures=[], crashed="stand-in mosek module not used (wrapper_name=%s)" % pep2.wrapper_name)
         if t_c in (None, "inconclusive") or t_m is None: continue
+        # the last solve on the stand-in (the heuristic problem when a heuristic is requested) did not reach its accuracy: the
+        # real wrapper never looks at the status (open finding KF-C16-mosek-status) and goes on with what the task holds
+        if getattr(getattr(pep2.wrapper, "task", None), "status", "optimal") != "optimal": continue
         distinct.add(json.dumps(desc["model"], sort_keys=True) + str(heur))
         sc = max(1.0, abs(t_c))
         if abs(t_c - t_m) > 2e-5 * sc:
@@ -775,7 +778,7 @@ def c11_heuristic(n, seed, procs):
     fails, samples, distinct = [], [], set()
     for it in range(n):
         rnd = random.Random(seed * 9949 + it); st = rnd.getstate()
-        vals = []
+        vals = []; wc_ref = None; inconclusive = False
         for W_cls in (CvxpyWrapper, MosekWrapper):
             r2 = random.Random(); r2.setstate(st)
             pep, info = build_model(r2, r2.choice(["gd_ssc", "gd_sc", "pgd", "ppa_op"]))
@@ -784,17 +787,23 @@ def c11_heuristic(n, seed, procs):
                 with contextlib.redirect_stdout(io.StringIO()):
                     pep._solve_with_wrapper(w, verbose=0, **({"solver": "CLARABEL"} if W_cls is CvxpyWrapper else {}))
                     wc = float(pep.objective.eval())
+                    # both back-ends are given the SAME optimum (the minimum of <W, G> is sensitive to it: on long models a
+                    # difference of 1e-8 between two solves of the original problem moves it by 1e-4)
+                    if wc_ref is None: wc_ref = wc
+                    wc = wc_ref
                     rng = np.random.default_rng(seed * 31 + it); n_ = Point.counter
                     A = rng.normal(size=(n_, n_)); Wm = A @ A.T + np.eye(n_)
                     w.prepare_heuristic(wc, 1e-4); w.heuristic(Wm)
                     w.solve(**({"solver": "CLARABEL"} if W_cls is CvxpyWrapper else {}))
                     G, _ = w.get_primal_variables()
+                    st_ = getattr(getattr(w, "prob", None), "status", None) or getattr(getattr(w, "task", None), "status", "optimal")
+                    if st_ != "optimal": inconclusive = True        # the solver did not reach its accuracy on the heuristic problem
                 vals.append(float(np.sum(Wm * G)))
             except Exception as ex:
                 vals.append("%s" % type(ex).__name__)
         desc = dict(seed=seed, it=it, model=info)
         distinct.add(json.dumps(info, sort_keys=True))
-        if isinstance(vals[0], float) and isinstance(vals[1], float):
+        if isinstance(vals[0], float) and isinstance(vals[1], float) and not inconclusive:
             if abs(vals[0] - vals[1]) > 1e-4 * max(1.0, abs(vals[0])):
                 fails.append(dict(what="min <W, G> under objective >= wc - tol: cvxpy back-end %.8g, MOSEK back-end %.8g" % (vals[0], vals[1]), oracle="c11_heuristic", input=desc, tags=["c11"]))
         if it < 2: samples.append(dict(desc, cvxpy=vals[0], mosek_path=vals[1]))
